@@ -157,6 +157,117 @@ class Gen:
         for r in rows:
             for n in r["names"]:
                 self.byname[n].append(r)
+        self.allbyname = collections.defaultdict(list)      # every database row of a mnemonic (also rows without field rules)
+        self.opaque = set()                                  # mnemonics with a row whose operand signature could not be parsed
+
+    def index_all(self, rows_all):
+        for r in rows_all:
+            for n in r["names"]:
+                if "ops" in r and "ov" in r:
+                    self.allbyname[n].append(r)
+                else:
+                    self.opaque.add(n)
+
+    ARRS = ["8B", "16B", "4H", "8H", "2S", "4S", "1D", "2D"]
+
+    def perturbations(self, row, base):
+        """operand lists with the KINDS of the row but another element type / arrangement / lane access / register view / width.
+        Nothing here says what is legal: whatever the assembler accepts is judged (AcceptedDenotesRow)."""
+        out = []
+        vpos = [k for k, v in enumerate(base) if v["k"] == "v"]
+        gpos = [k for k, v in enumerate(base) if v["k"] == "r" and "ids" not in v]
+
+        def vec(v, t, arr, ei):
+            d = dict(v)
+            d.update({"t": t, "arr": arr, "ei": ei})
+            return d
+        forms = [("v", a, -1) for a in self.ARRS] + [(t, "", -1) for t in "bhsdq"] + [("v", e, 1) for e in "BHSD"]
+        if not self.quick:
+            forms += [("v", "2H", -1), ("v", "4B", -1)] + [("v", e, 0) for e in "BHSD"]
+        for k in vpos:                                       # one operand at a time
+            for t, a, ei in forms:
+                if "ids" in base[k] and t != "v":
+                    continue
+                c = list(base)
+                c[k] = vec(base[k], t, a, ei)
+                out.append(c)
+        if len(vpos) > 1:                                    # all vector operands together
+            for t, a, ei in forms:
+                if ei >= 0 or any("ids" in base[k] and t != "v" for k in vpos):
+                    continue
+                c = list(base)
+                for k in vpos:
+                    c[k] = vec(base[k], t, a, -1)
+                out.append(c)
+            for e in "BHSD":                                 # last vector operand by element, the others in every arrangement of that element
+                for a in self.ARRS:
+                    if a[-1] != e:
+                        continue
+                    c = list(base)
+                    for k in vpos[:-1]:
+                        if "ids" not in base[k]:
+                            c[k] = vec(base[k], "v", a, -1)
+                    if "ids" not in base[vpos[-1]]:
+                        c[vpos[-1]] = vec(base[vpos[-1]], "v", e, 1)
+                        out.append(c)
+        flip = {"w": "x", "x": "w"}
+        for k in gpos:
+            c = list(base)
+            c[k] = dict(base[k], t=flip[base[k]["t"]])
+            out.append(c)
+        if len(gpos) > 1:
+            c = list(base)
+            for k in gpos:
+                c[k] = dict(base[k], t=flip[base[k]["t"]])
+            out.append(c)
+        return out
+
+    def view_alternatives(self, name, ops):
+        """other writings of the SAME registers (same register number, same register width, no lane):
+             v<n>.<arrangement> of 64/128/32 bits  =  d<n> / q<n> / s<n>      (e.g. v3.1d is d3, ldr v3.8b is ldr d3)
+             untyped d<n> / q<n>                   =  v<n>.8b / v<n>.16b      (bytewise operations: and, bic, cnt, ext, rev16 ...)
+             a single arranged register            =  the one-register list { v<n>.<T> }   (ld1/st1 API form)"""
+        WID = {"8B": "d", "4H": "d", "2S": "d", "1D": "d", "16B": "q", "8H": "q", "4S": "q", "2D": "q", "2H": "s", "4B": "s"}
+        vpos = [k for k, v in enumerate(ops) if v["k"] == "v" and "ids" not in v and v["ei"] < 0]
+        cands = []
+        if 0 < len(vpos) <= 4:
+            import itertools
+            for mask in itertools.product((0, 1), repeat=len(vpos)):
+                if not any(mask):
+                    continue
+                c, okc = list(ops), True
+                for m, k in zip(mask, vpos):
+                    if m:
+                        v = ops[k]
+                        if v["t"] == "v" and v["arr"] in WID:
+                            c[k] = dict(v, t=WID[v["arr"]], arr="")
+                        else:
+                            okc = False
+                if okc:
+                    cands.append(c)
+            c = [dict(v, t="v", arr={"d": "8B", "q": "16B"}[v["t"]]) if k in vpos and v["t"] in "dq" else v for k, v in enumerate(ops)]
+            if c != ops:
+                cands.append(c)
+            c = [dict(v, ids=[v["id"]]) if k in vpos and v["t"] == "v" else v for k, v in enumerate(ops)]
+            if c != ops:
+                cands.append(c)
+        alts = []
+        for c in cands:
+            okr, _ = self.fit_any(name, c)
+            if okr:
+                alts.append({"rs": okr, "o": c})
+        return alts
+
+    def fit_any(self, name, ops):
+        """(rows with field rules that fit, does a row WITHOUT rules fit)"""
+        okr, other = [], False
+        for r in self.allbyname[name]:
+            if self.fits(r, ops):
+                if r.get("ok"):
+                    okr.append(r["ix"])
+                else:
+                    other = True
+        return okr, other
 
     # -- grids ---------------------------------------------------------------------------------------------------
     def gp_grid(self, w, base):
@@ -318,7 +429,23 @@ class Gen:
                 lo = -(1 << (w_ - 1)) * p
                 xs = [8 * (p // 4 if p >= 4 else 1), 0, p, -p, hi, hi + p, lo, lo - p, p // 2 if p > 1 else 1, 1 if p > 1 else 3, 5 * p, -7 * p]
                 xs = [x for x in xs if -(1 << 30) < x < (1 << 30)]
-                slots.append(((k,), [({"k": "l", "v": x, "page": 1 if f["rule"] == "rel_page" else 0},) for x in xs]))
+                pg = 1 if f["rule"] == "rel_page" else 0
+                vals = [({"k": "l", "v": x, "page": pg},) for x in xs]
+                # the same targets given as a LABEL: bound before the instruction (backward, resolved at emit time) and after it
+                # (forward, resolved by the fixup at bind time); distances up to the format limits (capped at 2 MiB of padding)
+                cap = 1 << 21
+                step = p
+                back = [0, step, 2 * step, 1024 * step if 1024 * step <= cap else 256 * step, min(-lo, cap), min(-lo, cap) + step]
+                fwd = [step, 2 * step, 7 * step, min(hi, cap), min(hi, cap) + step]
+                if p > 1 and not pg:
+                    back.append(p // 2)          # label at a misaligned distance: must be refused
+                    fwd.append(p + p // 2)
+                for d in back:
+                    pc_ = d + 8
+                    vals.append(({"k": "l", "v": -d, "page": pg, "lab": 1, "lpos": pc_ - d, "pc": pc_},))
+                for d in fwd:
+                    vals.append(({"k": "l", "v": d, "page": pg, "lab": 1, "lpos": 12 + d, "pc": 12},))
+                slots.append(((k,), vals))
             elif kind == "fimm":
                 good = [fp8_value(i) for i in ([0x70, 0x00, 0xFF, 0x80, 0x7F, 0x3C, 0xC1, 0x0F] + ([] if q else list(range(0, 256, 7))))]
                 bad = [0, 1 << 63, fp8_value(0x70) | 1, fp8_value(0x70) | (1 << 47), 0x7FF0000000000000, fp8_value(0x7F) + (1 << 52), 0x3FF8000000000001]
@@ -383,7 +510,28 @@ class Gen:
                 modes = o["modes"]
                 m0 = modes[0]
                 if o.get("pc"):
-                    return None
+                    # label-based memory operand a64::Mem(label, moff): target = label position + moff.  Label bound before
+                    # (several distances incl. the format limits) and after the instruction, each with several offsets.
+                    f = offr[0]
+                    sc, w_ = f["p"], f["q"]
+                    lo, hi = -(1 << (w_ - 1)) * sc, ((1 << (w_ - 1)) - 1) * sc
+                    moffs = [8, 0, 4, -4, 0xFFC, 4 * self.rnd.randrange(-2000, 2000), 2]
+                    def LM(pc_, lpos, moff):
+                        d = Mem(b=-1, off=lpos + moff - pc_)
+                        d.update({"pcrel": 1, "lab": 1, "lpos": lpos, "pc": pc_, "moff": moff})
+                        return (d,)
+                    for moff in moffs:
+                        for d_ in (16, 0, 4096, 4):                 # backward
+                            vals.append(LM(d_ + 8, 8, moff))
+                        for d_ in (4, 64, 8192):                    # forward
+                            vals.append(LM(12, 12 + d_, moff))
+                    for moff in (0, 8, -4):                         # format limits (label +- 1 MiB), one beyond
+                        vals.append(LM(-lo + 16, 16 - moff if 16 - moff >= 0 else 16, moff))
+                        vals.append(LM(-lo + 16, 12 - moff if 12 - moff >= 0 else 12, moff))
+                        vals.append(LM(12, 12 + hi - moff, moff))
+                        vals.append(LM(12, 12 + hi - moff + sc, moff))
+                    slots.append(((k,), vals))
+                    continue
                 if o.get("idx"):
                     lg = [f for f in row["f"] if f["rule"] == "idx_s"]
                     L = lg[0]["p"] if lg else 0
@@ -498,8 +646,9 @@ class Gen:
                     return False
                 if row["ov"][k]:
                     j = 1 if row["ov"][k] == "tb" else 0
-                    if not any(e[j] == v["arr"] for e in row["tlist"]):
-                        return False
+                    tl = row.get("tlist")
+                    if tl and all(len(e) > j for e in tl) and not any(e[j] == v["arr"] for e in tl):
+                        return False          # (a row without a usable arrangement list fits any arrangement: nothing is concluded from it)
                 elif v["arr"] != o["arr"]:
                     return False
             elif kind == "ve":
@@ -516,7 +665,7 @@ class Gen:
                     if vk != "v" or v["ei"] >= 0:
                         return False
                     if row["ov"][k]:
-                        if not any(x[0] == v["arr"] for x in row["tlist"]):
+                        if row.get("tlist") and not any(x[0] == v["arr"] for x in row["tlist"]):
                             return False
                     elif v["arr"] != e["arr"]:
                         return False
@@ -533,8 +682,10 @@ class Gen:
                 if vk not in ("s", "-"):
                     return False
             elif kind == "mem":
-                if vk != "m" or o.get("pc"):
+                if vk != "m" or bool(o.get("pc")) != bool(v.get("pcrel")):
                     return False
+                if o.get("pc"):
+                    continue
                 if (v["xi"] >= 0) != bool(o.get("idx")):
                     return False
                 if v["xi"] >= 0 and bool(o["idx"].get("mod")) != (v["mode"] != "post"):
@@ -644,6 +795,8 @@ def render(name, ops):
             parts.append(COND[o["c"]])
         elif k == "l":
             parts.append(f"#{o['v']}")
+        elif k == "m" and o.get("pcrel"):
+            parts.append(f"#{o['off']}")
         elif k == "m":
             b = reg_text({"t": "x", "id": o["b"], "sp": o["bsp"]})
             if b is None:
@@ -667,6 +820,15 @@ def render(name, ops):
             return None
     nm = name.split(".")[0] if "<cond>" in name else name
     return nm + suffix + (" " + ", ".join(parts) if parts else "")
+
+
+def llvm_disassemble(words):
+    """decoder corroboration for the reports: what the emitted word really is"""
+    src = "\n".join(" ".join(f"0x{(w >> (8 * k)) & 255:02x}" for k in range(4)) for w in words) + "\n"
+    p = subprocess.run([LLVM_MC, "-triple=aarch64", "-mattr=" + MATTR, "--disassemble"], input=src, stdout=subprocess.PIPE, stderr=subprocess.PIPE,
+                       text=True, timeout=120)
+    lines = [l.strip() for l in p.stdout.splitlines() if l.strip() and not l.strip().startswith(".")]
+    return [re.sub(r"\s+", " ", l) for l in lines] + ["(undecodable)"] * (len(words) - len(lines)) if len(lines) <= len(words) else lines[:len(words)]
 
 
 def llvm_assemble(texts):
@@ -856,6 +1018,45 @@ def run(ctx):
                 rid_ = 3 if n_ % 7 else [0, 15, 30, 31, 16][n_ // 7 % 5]
                 cases.append({"n": "mov", "iid": mov_id, "r": 0, "rs": [], "o": [R(t, rid_), I(v)], "cls": "mov"})
                 nmov += 1
+    # perturbation leg (AcceptedDenotesRow): same operand kinds, other arrangement / element type / lane access / register view
+    gen.index_all(rows_all)
+    base_seen = {c["n"] + json.dumps(c["o"], sort_keys=True) for c in cases}
+    pcases, pskip = [], set()
+    for r in rows:
+        vec = is_vec_row(r)
+        for name in r["names"]:
+            if "<cond>" in name:
+                continue
+            ent = ids.get(name)
+            if not ent:
+                continue
+            if name in gen.opaque:
+                pskip.add(name)
+                continue
+            iid = ent.get("v" if vec else "gp", ent.get("gp", ent.get("v")))
+            for arrs in gen.esize_options(r)[:1 if q else None]:
+                sl = gen.slots(r, arrs)
+                if sl is None:
+                    continue
+                base = [None] * len(r["ops"])
+                for pos, vals in sl:
+                    for p_, v in zip(pos, vals[0]):
+                        base[p_] = v
+                for ops in gen.perturbations(r, base):
+                    key = name + json.dumps(ops, sort_keys=True)
+                    if key in base_seen:
+                        continue
+                    base_seen.add(key)
+                    okr, other = gen.fit_any(name, ops)
+                    if other and not okr:
+                        continue                       # fits only a row this check has no rules for: not judged
+                    pc_ = {"n": name, "iid": iid, "r": r["ix"], "rs": okr, "o": ops, "pt": 1}
+                    if not okr:
+                        pc_["alts"] = gen.view_alternatives(name, ops)
+                    pcases.append(pc_)
+    if pskip:
+        not_cov["perturbation leg skipped: the mnemonic has a database row whose operand signature is not parsed"] = sorted(pskip)
+    cases += pcases
     if no_id:
         not_cov["mnemonic has no a64::Inst id in the pinned asmjit"] = sorted(set(no_id))
     if no_gen:
@@ -869,7 +1070,9 @@ def run(ctx):
         seen.add(key)
         uniq.append(c)
     cases = uniq
-    ctx.log(f"sweep: {len(cases)} distinct cases over {len({c['r'] for c in cases if c['r']})} rows (+{nmov} mov-immediate sequences)")
+    nlab = sum(1 for c in cases if any(isinstance(v, dict) and v.get("lab") for v in c["o"]))
+    ctx.log(f"sweep: {len(cases)} distinct cases over {len({c['r'] for c in cases if c['r']})} rows (+{nmov} mov-immediate sequences; "
+            f"{nlab} with a bound/unbound label operand; {len(pcases)} perturbed-operand cases)")
     cp, op = ctx.path("cases.ndjson"), ctx.path("obs.ndjson")
     with open(cp, "w") as f:
         for c in cases:
@@ -881,6 +1084,12 @@ def run(ctx):
     obs = [json.loads(l) for l in open(op)]
     if len(obs) != len(cases):
         raise Broken("harness answered a different number of cases")
+    # a perturbed case the assembler REFUSES says nothing about C02 (only what is accepted is judged): counted, not evaluated further
+    npt = sum(1 for o in obs if o.get("pt"))
+    nref = sum(1 for o in obs if o.get("pt") and not o["ok"])
+    obs = [o for o in obs if not (o.get("pt") and not o["ok"])]
+    ctx.extra["perturbed_cases"] = {"executed": npt, "refused_by_asmjit_not_judged": nref, "accepted_and_judged": npt - nref}
+    ctx.log(f"perturbation leg: {npt} cases executed, {nref} refused by asmjit (not judged), {npt - nref} accepted and judged")
 
     # ---- llvm-mc leg -------------------------------------------------------------------------------------------
     texts, where = [], []
@@ -901,7 +1110,8 @@ def run(ctx):
     # ---- TLC ---------------------------------------------------------------------------------------------------
     for o in obs:
         o.setdefault("cls", "enc")
-    lines = [json.dumps({k: o[k] for k in ("n", "rs", "o", "ok", "w", "lx", "lok", "lw", "nl", "cls", "r")}, separators=(",", ":")) for o in obs]
+        o.setdefault("alts", [])
+    lines = [json.dumps({k: o[k] for k in ("n", "rs", "o", "ok", "w", "lx", "lok", "lw", "nl", "cls", "r", "alts")}, separators=(",", ":")) for o in obs]
     t0 = time.time()
     rejects = tlc_pointwise(ctx, lines, "obs", 8 if q else 12, rows_tla)
     ctx.log(f"TLC: {len(lines)} observations evaluated in {time.time() - t0:.1f}s, {len(rejects)} REJECT lines")
@@ -909,8 +1119,10 @@ def run(ctx):
 
 
 def classify(ctx, rows, obs, rejects, not_cov, total):
-    accepted_rows = {o["r"] for o in obs if o["ok"] and o["r"]}
-    exercised_rows = {o["r"] for o in obs if o["r"]}
+    accepted_rows = {o["r"] for o in obs if o["ok"] and o["r"] and not o.get("pt")}
+    exercised_rows = {o["r"] for o in obs if o["r"] and not o.get("pt")}
+    db_incomplete = collections.OrderedDict()
+    eqview = collections.OrderedDict()
     ctx.extra["mov_immediate_sequences_judged"] = sum(1 for o in obs if o["ok"] and not o["r"])
     viol = collections.OrderedDict()
     unjudged = collections.OrderedDict()
@@ -918,6 +1130,19 @@ def classify(ctx, rows, obs, rejects, not_cov, total):
     bad_rows = set()
     for o, va, vaf, vl, vlf, cor in rejects:
         sig = rows[o["r"] - 1]["sig"] if o["r"] else "mov Rd, #imm (movz/movn/movk/orr sequence)"
+        if va == "equivalent-view":
+            eqview.setdefault(f"{o['n']} {sig_operands(o)}", []).append(o)
+            continue
+        if va == "accepted-non-form":
+            # accepted, but no database row has this operand pattern.  llvm-mc refuses the text as well -> the assembler accepted a
+            # non-existent form (violation).  llvm-mc assembles it -> the DATABASE lacks the row (information, never a violation).
+            if cor:
+                viol.setdefault(f"accepted-non-form:{o['n']}:{sig_operands(o)}", []).append(o)
+            else:
+                same = o.get("lok") and o.get("lw") == o["w"]
+                db_incomplete.setdefault(f"{o['n']} {sig_operands(o)} | " + ("db-row-incomplete (llvm-mc emits the same word)" if same else
+                                         "no database row; llvm-mc accepts the text with another word (not judged)"), []).append(o)
+            continue
         if va and cor:
             why = (why_refused(o, vaf, rows) if va == "accepts-unencodable" else "wrong-bits") if o["r"] else "sequence-value"
             key = f"{va}:{o['n']}:{vaf}:{why}"
@@ -956,14 +1181,31 @@ def classify(ctx, rows, obs, rejects, not_cov, total):
     import fnmatch
     groups = collections.OrderedDict()
     known_hits = collections.OrderedDict()
+    nonform = collections.OrderedDict()
     for key, v in viol.items():
-        cl, mn, fld, why = key.split(":", 3)
         ctx.extra.setdefault("rejected_groups", {})[key] = len(v)
         kk = next((k for k in ctx.known if fnmatch.fnmatchcase(key, k)), None)
         if kk:
             known_hits.setdefault(kk, []).append((key, len(v)))
+        elif key.startswith("accepted-non-form:"):
+            nonform.setdefault(key.split(":")[1], []).append((key, v))
         else:
+            cl, mn, fld, why = key.split(":", 3)
             groups.setdefault(f"{cl}:{fld}:{why}", []).append((mn, v))
+    ctx.extra["equivalent_view_information"] = {"patterns": len(eqview), "what": "accepted writings of the same registers (v<n>.1d = d<n>; untyped d/q = .8b/.16b) "
+                                                "whose word is the database row's encoding of the rewritten operands", "examples": list(eqview)[:60]}
+    ctx.extra["db_row_incomplete_information"] = {k: len(v) for k, v in list(db_incomplete.items())[:400]}
+    if db_incomplete:
+        ctx.log(f"  information: {len(db_incomplete)} accepted operand patterns without a database row that llvm-mc assembles as well (db-row-incomplete), e.g. "
+                + "; ".join(f"{k} [{obs_text(v[0])}]" for k, v in list(db_incomplete.items())[:3]))
+    for mn, members in nonform.items():                      # accepted-non-form:<inst>:<signature>, one report per mnemonic
+        rp = ctx.path(f"reject_accepted-non-form_{re.sub(r'[^A-Za-z0-9_.-]', '_', mn)}.ndjson")
+        vlib.write_ndjson(rp, [o for _, v in members for o in v[:3]][:60])
+        first = members[0][1][0]
+        dis = llvm_disassemble([word_of(first["w"][0])])[0] if first["w"] else "?"
+        ctx.violation(f"accepted-non-form:{mn}: the assembler accepts operand patterns no database row (and no llvm-mc form) has: "
+                      + " ".join(k.split(":", 2)[2] for k, _ in members[:24]) + (" ..." if len(members) > 24 else "")
+                      + f"; e.g. {obs_text(first)}; llvm-mc decodes {word_of(first['w'][0]):08x} as '{dis}'", rp)
     for kk, hits in known_hits.items():
         ctx.known_finding(kk, ctx.known[kk] + f" [{sum(n for _, n in hits)} observations, {len(hits)} signature(s) in this run, e.g. {hits[0][0]}]")
     for g, members in groups.items():
@@ -985,6 +1227,10 @@ def classify(ctx, rows, obs, rejects, not_cov, total):
         "a spec rejection counts only when llvm-mc 14 corroborates the spec on the same operands; rows where the spec disagrees with both assemblers "
         "(database template / rule contradicted) are listed as unjudged, never reported",
         "a64::Inst ids are the ordinals of the public enum in a64globals.h (InstAPI::string_to_inst_id is not used)",
+        "label operands: the label is bound at a recorded section offset before (backward) or after (forward, fixup) the instruction; the word is read "
+        "after the bind; the spec states decoded target = label position + memory-operand offset",
+        "perturbation leg: operand patterns outside the database forms are executed; only what asmjit ACCEPTS is judged (a matching database row must "
+        "exist and match); accepted patterns that llvm-mc assembles too are reported as db-row-incomplete (information)",
     ]
     vlib.write_evidence(ctx, "other",
         rule="evaluations = sweep cases executed on a64::Assembler and evaluated by TLC (asmjit leg + llvm-mc leg); distinct = distinct (mnemonic, emitted words) "
@@ -1005,7 +1251,7 @@ def replay(ctx, path):
     json.dump([{"mask": r["mask"], "val": r["val"], "f": r["f"], "tl": r["tlist"] or [], "ov": r["ov"]} for r in rows], open(rows_tla, "w"))
     recs = vlib.read_ndjson(path)
     cp, op = ctx.path("cases.ndjson"), ctx.path("obs.ndjson")
-    vlib.write_ndjson(cp, [{k: r[k] for k in ("n", "iid", "r", "rs", "o")} for r in recs])
+    vlib.write_ndjson(cp, [{k: r[k] for k in ("n", "iid", "r", "rs", "o", "cls", "pt", "alts") if k in r} for r in recs])
     bdir = ctx.build("plain", "a64sweep")
     rc, _, err = vlib.run_harness(ctx, bdir, "a64sweep", ["run", cp, op], timeout=600)
     if rc != 0:
@@ -1015,7 +1261,8 @@ def replay(ctx, path):
     lres = llvm_assemble([t for t in texts if t])
     it = iter(lres)
     for o, t in zip(obs, texts):
-        o["lx"], o["lok"], o["lw"], o["nl"], o["cls"] = 0, False, [], 1, "enc"
+        o["lx"], o["lok"], o["lw"], o["nl"] = 0, False, [], 1
+        o.setdefault("cls", "enc")
         if t:
             ok, ws = next(it)
             o["lx"], o["lok"], o["lw"], o["nl"] = 1, ok, ws, 0
